@@ -557,6 +557,10 @@ func runC19(c *run.Ctx, s *kit.Summary) {
 	for _, t := range gen.RateMalformed {
 		ks = append(ks, mk("rate", "flag.rate", "c19.rate", []string{t}, rateOracle(gen.RateCase{Text: t, Kind: "malformed"})))
 	}
+	for i := 0; i < c.N(300, 20000); i++ { // numbers in unusual shapes (long digit runs around a decimal point, leading zeros, exponents): model comparison only
+		ks = append(ks, mk("rate", "flag.rate", "c19.rate", []string{gen.NumericShapes(r, gen.Rate(r).Text)}, nil))
+		s.Count("rate:numeric shapes")
+	}
 	runCases(c, s, "rate", ks)
 
 	ks = nil
@@ -684,6 +688,10 @@ func runC19(c *run.Ctx, s *kit.Summary) {
 			}
 		}))
 	}
+	for i := 0; i < c.N(300, 20000); i++ { // numbers in unusual shapes (long digit runs around a decimal point, leading zeros, exponents): model comparison only
+		ks = append(ks, mk("maxbody", "flag.maxbody", "c19.maxbody", []string{gen.NumericShapes(r, gen.Size(r).Text)}, nil))
+		s.Count("maxbody:numeric shapes")
+	}
 	runCases(c, s, "maxbody", ks)
 
 	ks = nil
@@ -728,6 +736,10 @@ func runC19(c *run.Ctx, s *kit.Summary) {
 	}
 	for _, t := range gen.TTLMalformed {
 		ks = append(ks, mk("dnsttl", "flag.dnsttl", "c19.dnsttl", []string{t}, nil)) // model comparison only
+	}
+	for i := 0; i < c.N(300, 20000); i++ { // numbers in unusual shapes (long digit runs around a decimal point, leading zeros, exponents): model comparison only
+		ks = append(ks, mk("dnsttl", "flag.dnsttl", "c19.dnsttl", []string{gen.NumericShapes(r, gen.TTL(r).Text)}, nil))
+		s.Count("dnsttl:numeric shapes")
 	}
 	runCases(c, s, "dnsttl", ks)
 
@@ -862,6 +874,10 @@ func runC19(c *run.Ctx, s *kit.Summary) {
 				acceptedResolversAreAddresses(out, s, k) // refusal is not demanded; an accepted list must be addresses
 			}))
 		}
+	}
+	for i := 0; i < c.N(300, 20000); i++ { // numbers in unusual shapes (long digit runs around a decimal point, leading zeros, exponents): model comparison only
+		ks = append(ks, mk("resolvers", "flag.resolvers", "c19.resolvers", []string{gen.NumericShapes(r, gen.Resolver(r).Text)}, nil))
+		s.Count("resolvers:numeric shapes")
 	}
 	runCases(c, s, "resolvers", ks)
 
